@@ -141,11 +141,14 @@ int main(int argc, char** argv) {
         for (long i = 0; i < n; i++) {
             gen.span = r.chance(60) ? 6 : (r.chance(50) ? 3 : 12);
             gen.setPartner(GGeom{}, 0);
-            Par p;
+            Par p; bool nested = false;
             int mode = (int) r.below(100);
             GGeom A;
             if (mode < 80) { p.mode = "buf"; int k = (int) r.below(100); A = gen.geom(k < 12 ? 0 : k < 40 ? 1 : k < 75 ? 2 : 3, true, true);
-                if (k >= 40 && k < 58) { GElem e; if (holedPolygon(gen, r, e)) { A = GGeom{}; A.container = 0; A.elems.push_back(e); out.count("holed_polygon"); } } }
+                if (k >= 40 && k < 58) { GElem e; if (holedPolygon(gen, r, e)) { A = GGeom{}; A.container = 0; A.elems.push_back(e); out.count("holed_polygon"); } }
+                if (r.chance(5)) {   // nested frames (or their rings as concentric closed lines): the result has shells inside holes of other shells
+                    A = gen.nestedFrames(); nested = true;
+                    if (r.chance(40)) { GGeom L; L.container = 1; for (auto& e : A.elems) for (auto& rg : e.rings) { GElem l; l.kind = 1; l.rings.push_back(rg); L.elems.push_back(l); } A = L; out.count("concentric_closed_lines"); } } }
             else if (mode < 86) { p.mode = "buf"; p.ss = 1; A = gen.geom(1, false, false); }          // single-sided through BufferParams: lineal input
             else if (mode < 95) { p.mode = "oc"; A.container = 0; A.elems.push_back(r.chance(70) ? gen.line() : gen.polygon()); }      // the offset curve is defined per element: single elements only
             else { p.mode = "ssb"; A.container = 0; A.elems.push_back(gen.line()); }
@@ -166,6 +169,7 @@ int main(int argc, char** argv) {
             double rel = std::pow(10.0, r.range(-6, 2) + r.unit());
             if (r.chance(50)) rel = std::pow(10.0, r.range(-2, 0) + r.unit());            // the interesting middle range more often
             if (lineal && rel < 1e-3) rel = std::pow(10.0, -3.0 * r.unit());
+            if (nested) rel = 0.004 + 0.02 * r.unit();          // small enough for the frames to stay apart
             p.d = size * rel;
             bool hasPoly = g->getDimension() == 2;
             if (p.mode == "buf" && !p.ss) {
